@@ -10,6 +10,7 @@ Generic rule names emitted (mapped to property rule ids by C01/C02/C08/C09):
   INPLACE load-before-store per byte (exact aliasing c == m)
   OUTRANGE nothing is written outside the documented output range on any path
   INRANGE nothing is read beyond the declared input (memory safety only: C06)
+  SENS    decrypt: every ciphertext bit reaches the recovered plaintext and (AEAD) the authenticated state (C03: tampering is noticed)
   NONCE2  SIV second-pass nonce composition
   WIPESTART check_tag receives the start of the plaintext buffer (C04's R-C04-ARGS decides it; listed for C02/C09 conformance only)
   RT      decrypt returns check_tag's verdict on the tag just generated; no unresolved access (needed by the round trip whatever the cipher is)
@@ -653,6 +654,30 @@ def check_cipher(ck, mod, f, label, rulemap):
                      ("plaintext word absorbed into word 3%s" % ("" if r >= 4 else ", length %d injected into word 1" % r)) if kind == "aead" else "second pass does not absorb: state = permutation output",
                      "state after the %s differs from the specification: %s" % (name, mode.first_diff(got_state, Safter)))
                 n += 1
+            if not enc:
+                # sensitivity: every ciphertext bit of the segment must be able to influence the verdict - it reaches the recovered plaintext
+                # bit (which the SIV authentication pass re-absorbs) and, for the one-pass AEAD, the state the tag is generated from
+                memo_s = {}
+                inbits = {(("mem", in_cur, j_) if in_cur[0] != "idx" else ("mem", in_cur[1], (in_cur[2], j_)), b_) for j_ in range(r) for b_ in range(8)}
+                miss_o = []
+                for j_ in range(r):
+                    got = outs.get((out_cur, j_))
+                    for b_ in range(8):
+                        var = (("mem", in_cur, j_) if in_cur[0] != "idx" else ("mem", in_cur[1], (in_cur[2], j_)), b_)
+                        if got is None or got[b_] is gf2.TOP or var not in gf2.support(got[b_], memo_s):
+                            miss_o.append((j_, b_))
+                c.ob(not miss_o, "SENS", "%s-plaintext-sensitive" % name, "every ciphertext bit of the %s reaches the corresponding recovered plaintext bit" % name,
+                     "recovered plaintext does not depend on ciphertext byte/bit %s: a modification there goes unnoticed by the authentication" % (miss_o[:3],))
+                if kind == "aead" and got_state is not None:
+                    sup = set()
+                    for w_ in got_state:
+                        for bit_ in w_:
+                            if bit_ is not gf2.TOP:
+                                sup |= gf2.support(bit_, memo_s)
+                    miss_s = sorted(inbits - sup, key=repr)
+                    c.ob(not miss_s, "SENS", "%s-state-sensitive" % name, "every ciphertext bit of the %s enters the state the tag is computed from" % name,
+                         "the state after the %s does not depend on %d ciphertext bit(s), e.g. %s: tampering with them is accepted" % (name, len(miss_s), miss_s[:2]))
+                n += 2
             okal, badj = mode.alias_order_ok(p, in_cur, out_cur)
             c.ob(okal, "INPLACE", "%s-load-before-store" % name, "every input byte is loaded before the output byte at the same offset is stored (c == m is safe)",
                  "input byte %s is loaded after output byte %s was stored: in-place use reads overwritten data" % (badj, badj))
